@@ -107,7 +107,7 @@ def main():
                                       % (cid, dev, bad_sub, S.opts_key(opts)), cid)
 
         # ------------------------------------------------------------ (2) nodal values of the scalar dual bases
-        if closed:
+        if True:   # closed and open grids (on a boundary edge the midpoint value is still 1/2, at a boundary vertex 1/n)
             cid = "%s:nodal:DUAL1" % mname
             if ctx.want(cid):
                 with ctx.guard(cid, "dual_nodal_values:DUAL1"):
